@@ -6,11 +6,13 @@
    escapes, parentheses -- also touching tokens --, comments, white space), parse_rr_forms (the
    ten field shapes, owner / TTL inheritance, wildcard owners), one rejection lemma per listed
    fault, no partial load, and soa_raises_ttls.
-   Not proved (the correspondence stream and the python denotation cover it):
-     parse_denotes_partial -- the whole-file statement
-       valid f -> deserialise (render f) = Ok z /\ z ~ denote f
-     composing the three parts over a list of entries (origin tracking across entries and the
-     final assembly) is not done in Coq. *)
+   Second half of the file: C11_parse_denotes, the whole-file statement
+       valid f -> deserialise (render f) = Ok z /\ z represents (denote f)
+   for files of the abstract syntax of ZoneFile/ZoneParseDenotes.v laid out ANYHOW in the layout
+   family (white space, \X and \DDD escapes, quoted tokens, parenthesised groups spanning lines,
+   comments, blank lines), all ten field shapes, all owner forms, $ORIGIN changes, owner / TTL
+   inheritance, the SOA, in canonical SPELLING (names lower-case, numbers and addresses as Display
+   prints them).  What the spelling restriction leaves out is listed at C11_parse_denotes. *)
 From RV Require Import Base.Prelude Name.NameModel Name.NameSpec Wire.WireTypes Zone.ZoneModel
      ZoneFile.ZoneFileModel ZoneFile.ZoneFileSpec ZoneFile.ZoneFileProofs.
 
@@ -143,3 +145,122 @@ Proof. vm_compute. repeat split; reflexivity. Qed.
 Definition ex_include_text : list N := [97; 46; 32; 53; 32; 73; 78; 32; 65; 32; 49; 46; 50; 46; 51; 46; 52; 10; 36; 73; 78; 67; 76; 85; 68; 69; 32; 120; 10].
 Example C11_reject_include_ex : deserialise ip0 ex_include_text = Err IncludeNotSupported.
 Proof. vm_compute. reflexivity. Qed.
+
+(* ====================================================================== *)
+(* 3. parse_denotes                                                        *)
+(* ====================================================================== *)
+From RV Require Import Zone.ZoneFlat Zone.ZoneProofs ZoneFile.ZfInstance ZoneFile.ZoneRtLines ZoneFile.ZoneRtLoop
+     ZoneFile.ZoneRtCodec ZoneFile.ZoneParseDenotes.
+
+(* A file is a list of lines; a line holds an entry of the abstract syntax (or none: blank and
+   comment-only lines), a layout -- ANY list of items of the layout family whose tokens are the
+   entry's fields -- and a terminator (newline, comment, end of input; only the last line may end
+   without a newline).  [lines_ok]: the layouts are in the family, the names are expressible
+   (well formed, ASCII dot-free lower-case labels), numbers in range, the type one of the 18 with
+   RDATA of its shape, an owner written as a name is not all digits and does not use the
+   wildcard syntax; decidable: [lines_okb] is a sound checker.
+   [denote]: origin tracking, "@" and relative names against the current origin, owner (with
+   its wildcard-ness) and TTL inherited from the previous record -- the TTL as loaded, D3 --,
+   class optional, TTL and class in either order, an owner "*" / "*.x" / expanding to "*.x" is
+   a wildcard, the SOA makes the zone authoritative at its owner with TTL = MINIMUM; the result
+   is (apex, SOA, insertions), its content flat_of_ops of Zone/ZoneFlat.v, which raises every TTL
+   to the SOA minimum; None if an owner lies outside the apex, a second or a wildcard SOA, a
+   relative name / @ / * without origin, no owner or no TTL to inherit.
+   Then the parser returns a zone with that apex and SOA whose record tree represents (relation
+   R of Zone/ZoneProofs.v, the one C02 is stated with) exactly those records; it is the zone
+   Zone::new + insert / insert_wildcard build from them.
+
+   NOT covered (spelling, not layout): upper-case letters in names (the parser folds them),
+   numbers written with leading zeros or '+', addresses in non-canonical spelling, TYPE<n>
+   mnemonics, the wildcard at the root written "*." and an owner NAME written with a leading
+   "*." (write it as the wildcard it is).  parse_denotes_spelling_partial would quantify over
+   these spellings too; the correspondence stream generates them. *)
+Theorem C11_parse_denotes : forall ip, codec_rt ip -> forall ls apex so ops,
+  lines_ok ip sp_init ls -> denote ls = Some (apex, so, ops) ->
+  exists z, deserialise ip (render ls) = Ok z /\ z_apex z = apex /\ z_soa z = so /\
+            zone_build apex so ops = Ok z /\ R (labels apex) (z_records z) (flat_of_ops apex so ops).
+Proof. exact parse_denotes. Qed.
+Print Assumptions C11_parse_denotes.
+
+(* validity is checkable by computation *)
+Theorem C11_lines_okb_sound : forall ip ls s, lines_okb ip s ls = true -> lines_ok ip s ls.
+Proof. exact lines_okb_sound. Qed.
+Print Assumptions C11_lines_okb_sound.
+
+(* for the codec the model is run with nothing is assumed *)
+Theorem C11_parse_denotes_zf : forall ls apex so ops,
+  lines_okb zf_codec sp_init ls = true -> denote ls = Some (apex, so, ops) ->
+  exists z, zf_deserialise (render ls) = Ok z /\ z_apex z = apex /\ z_soa z = so /\
+            zone_build apex so ops = Ok z /\ R (labels apex) (z_records z) (flat_of_ops apex so ops).
+Proof.
+  intros ls apex so ops H. apply (parse_denotes zf_codec zf_codec_rt). apply lines_okb_sound. exact H.
+Qed.
+Print Assumptions C11_parse_denotes_zf.
+
+(* ---- an instance: eight lines using most of the syntax ----
+     $ORIGIN example.com.
+     @ IN SOA ns h ( 1 2 3          <- parenthesised group over two lines, trailing comment
+      4 60 ) ; the SOA
+     www 300 A 1.2.3.4              <- relative owner, TTL, no class
+     ; note                         <- comment-only line
+     <TAB>IN TXT <quoted a b>       <- owner and TTL inherited, quoted token with a space
+     * MX 10 @                      <- the wildcard at the origin, TTL inherited, @ in RDATA
+     $ORIGIN sub                    <- relative change of origin
+     @ 5 IN CNAME w\119w\.example.com.   <- @ = sub.example.com., \DDD and \X escapes, no final newline *)
+Local Notation ex := ([101; 120; 97; 109; 112; 108; 101] : label).
+Local Notation com := ([99; 111; 109] : label).
+Local Notation www := ([119; 119; 119] : label).
+Definition tk (s : list N) : item := ITok (rawtok s).
+Definition qt (s : list N) : item := ITok {| wt_quoted := true; wt_pieces := map PRaw s |}.
+Definition sp1 : item := IWs 32.
+Definition frr0 o t c tf ty rd := {| f_owner := o; f_ttl := t; f_class := c; f_ttl_first := tf; f_type := ty; f_rd := rd |}.
+Definition ex_lines : list fline :=
+  [ {| l_entry := Some (FOrigin (NAbs (ZoneProofs.nm [ex; com])));
+       l_items := [tk S_ORIGIN; sp1; tk [101;120;97;109;112;108;101;46;99;111;109;46]]; l_term := TNl |};
+    {| l_entry := Some (FRR (frr0 (Some (OName NAt)) None true false RT_SOA (A_SOA (NRel [[110;115]]) (NRel [[104]]) 1 2 3 4 60)));
+       l_items := [tk [64]; sp1; tk S_IN; sp1; tk [83;79;65]; sp1; tk [110;115]; sp1; tk [104]; sp1; IOpen; sp1; tk [49]; sp1; tk [50]; sp1; tk [51];
+                   INl; sp1; tk [52]; sp1; tk [54;48]; sp1; IClose; sp1];
+       l_term := TCommentNl [32;116;104;101;32;83;79;65] |};
+    {| l_entry := Some (FRR (frr0 (Some (OName (NRel [www]))) (Some 300) false false RT_A (A_A 16909060)));
+       l_items := [tk [119;119;119]; sp1; tk [51;48;48]; sp1; tk [65]; sp1; tk [49;46;50;46;51;46;52]]; l_term := TNl |};
+    {| l_entry := None; l_items := []; l_term := TCommentNl [32;110;111;116;101] |};
+    {| l_entry := Some (FRR (frr0 None None true false RT_TXT (A_Octets [97;32;98])));
+       l_items := [IWs 9; tk S_IN; sp1; tk [84;88;84]; sp1; qt [97;32;98]]; l_term := TNl |};
+    {| l_entry := Some (FRR (frr0 (Some OStar) None false false RT_MX (A_MX 10 NAt)));
+       l_items := [tk [42]; sp1; tk [77;88]; sp1; tk [49;48]; sp1; tk [64]]; l_term := TNl |};
+    {| l_entry := Some (FOrigin (NRel [[115;117;98]])); l_items := [tk S_ORIGIN; sp1; tk [115;117;98]]; l_term := TNl |};
+    {| l_entry := Some (FRR (frr0 (Some (OName NAt)) (Some 5) true true RT_CNAME (A_Name (NAbs (ZoneProofs.nm [www; ex; com])))));
+       l_items := [tk [64]; sp1; tk [53]; sp1; tk S_IN; sp1; tk [67;78;65;77;69]; sp1;
+                   ITok {| wt_quoted := false; wt_pieces := [PRaw 119; PEscD 119; PRaw 119; PEscX 46] ++ map PRaw [101;120;97;109;112;108;101;46;99;111;109;46] |}];
+       l_term := TEof |} ].
+
+Example C11_parse_denotes_ex :
+  lines_okb zf_codec sp_init ex_lines = true /\
+  exists apex so ops z,
+    denote ex_lines = Some (apex, so, ops) /\ apex = ZoneProofs.nm [ex; com] /\ length ops = 4%nat /\
+    zf_deserialise (render ex_lines) = Ok z /\ z_apex z = apex /\ z_soa z = so /\
+    R (labels apex) (z_records z) (flat_of_ops apex so ops) /\
+    (* the TTLs 300 stay (>= 60), the CNAME's 5 is raised to the SOA minimum 60 *)
+    map (fun p => map zr_ttl (snd p)) (zone_all_records z) = [[60]; [300; 300]; [60]] /\
+    map (fun p => map zr_ttl (snd p)) (zone_all_wildcard_records z) = [[300]].
+Proof.
+  split; [vm_compute; reflexivity|].
+  destruct (denote ex_lines) as [[[apex so] ops]|] eqn:Ed; [|vm_compute in Ed; discriminate].
+  destruct (C11_parse_denotes_zf ex_lines apex so ops ltac:(vm_compute; reflexivity) Ed) as (z & Hz & Ha & Hs & _ & HR).
+  exists apex, so, ops, z. split; [reflexivity|].
+  assert (Hv : apex = ZoneProofs.nm [ex; com] /\ length ops = 4%nat) by (vm_compute in Ed; injection Ed as <- <- <-; split; reflexivity).
+  destruct Hv as [Hv1 Hv2]. split; [exact Hv1|]. split; [exact Hv2|]. split; [exact Hz|]. split; [exact Ha|]. split; [exact Hs|].
+  split; [exact HR|]. vm_compute in Hz. injection Hz as <-. split; reflexivity.
+Qed.
+
+(* NOT proved -- kept as a statement:
+   Theorem C11_parse_denotes_spelling_partial : the same as C11_parse_denotes for files whose names
+     may be written with upper-case letters (NAbs / NRel carrying the text as written, denoting its
+     lower-case form), numbers as any digit string from_str accepts (leading zeros, '+'), addresses
+     in any spelling FromStr accepts, types also as TYPE<n>, the root wildcard as '*.' and wildcard
+     owners written as names with a leading '*.'.
+   Missing: the abstract syntax of ZoneParseDenotes.v fixes one spelling per value; the parser's
+   case folding is available as a lemma (Name/NameProofs.v dotted_case_insensitive) but is not
+   threaded through nref_parse / rda_parse.  The correspondence stream generates these spellings
+   (upper-case letters in labels, TYPE<n> is rejected there as 'ambiguous'), judged by the python
+   denotation. *)
